@@ -194,6 +194,8 @@ class SymArray(np.ndarray):
     def real(self):
         if self.dtype != object:
             return np.asarray(self).real
+        if not is_complex_content(np.asarray(self)):
+            return self.view()   # ndarray.real of a non-complex array is a view on the same memory: aliasing matters
         return wrap(_v_real(np.asarray(self)))
 
     @real.setter
